@@ -128,6 +128,8 @@ type Effect struct {
 }
 
 type Effects struct {
+	poolOK  map[*ssa.Call]bool
+	Pooled  map[ssa.Value]bool // Get calls classified as private scratch: fresh memory, but not fresh contents
 	fcBusy  map[Root]bool
 	p       *Program
 	memo    map[ssa.Value]RootSet
@@ -585,7 +587,16 @@ func (e *Effects) callResult(c *ssa.Call, idx int) RootSet {
 	if callee != nil {
 		name := callee.String()
 		if externalShared[name] {
-			// recycled objects: whatever comes out may still be referenced by whoever put it in
+			// recycled objects: whatever comes out may still be referenced by whoever put it in — unless this call
+			// takes it, uses it, puts it back and keeps nothing (pooluse.go): then it is private scratch memory
+			if e.poolDiscipline(c) {
+				if e.Pooled == nil {
+					e.Pooled = map[ssa.Value]bool{}
+				}
+				e.Pooled[c] = true
+				out.add(Root{Kind: rkFresh, Site: c})
+				return out
+			}
 			out.add(Root{Kind: rkUnknown})
 			return out
 		}
@@ -597,6 +608,12 @@ func (e *Effects) callResult(c *ssa.Call, idx int) RootSet {
 			out.add(Root{Kind: rkFresh, Site: c})
 			return out
 		}
+	}
+	if callee == nil && com.IsInvoke() && com.Method.Name() == "Sum" && len(com.Args) == 1 {
+		// hash.Hash.Sum(b) appends the digest to b and returns the result: it may be b's own array
+		out.addAll(e.Src(com.Args[0]))
+		out.add(Root{Kind: rkFresh, Site: c})
+		return out
 	}
 	if callee == nil && !com.IsInvoke() {
 		// call through a function value
